@@ -1,6 +1,8 @@
 package checks
 
 import (
+	"context"
+	"errors"
 	"fmt"
 	"sort"
 	"strings"
@@ -220,7 +222,85 @@ func C06(rep *ev.Reporter, tier string) {
 	RunFamily(rep, gen, 3000, bud, judge)
 	rep.Coverage["zero_listener_runs_compared"] = plainChecked
 	c06Nested(rep, sets, maxMax)
-	rep.Coverage["rule"] = "rule sets {never satisfied, fires n=1..3 times, loops forever (1 and 2 rules), Complete at firing n, action error at firing n, retract chain, mixed, failing condition} x MaxCycle 0..5 (thorough 0..8) x 1..4 listeners (+ a listener-free differential run) x every rule order per cycle. Oracle: the engine model followed along the observed trace decides, per cycle, whether the run must continue, fire, end with nil, with the limit error or with an action error; per-listener protocol automaton (consecutive numbering, each active rule exactly once, <=1 execution of a same-cycle candidate). Termination horizon is a callback count, not a clock. Non-trivial: a run that reaches the budget boundary with candidates left. Second family (overlapping runs on ONE engine value): for every outer program with a probe in an action or a condition x inner program x MaxCycle x probe invocation index j, the j-th probe invocation of the outer run starts a complete inner run (own instance, facts and data context) on the same (warm: it served a complete run before) *GruleEngine, under the first and last static rule order of either run; both traces are judged by the same engine model and compared with the scenario run on two separate engine values."
+	c06Interrupted(rep, sets)
+	rep.Coverage["rule"] = "rule sets {never satisfied, fires n=1..3 times, loops forever (1 and 2 rules), Complete at firing n, action error at firing n, retract chain, mixed, failing condition} x MaxCycle 0..5 (thorough 0..8) x 1..4 listeners (+ a listener-free differential run) x every rule order per cycle. Oracle: the engine model followed along the observed trace decides, per cycle, whether the run must continue, fire, end with nil, with the limit error or with an action error; per-listener protocol automaton (consecutive numbering, each active rule exactly once, <=1 execution of a same-cycle candidate). Termination horizon is a callback count, not a clock. Non-trivial: a run that reaches the budget boundary with candidates left. Third family (interrupted runs): every rule set under every static order with the context ending (Canceled / DeadlineExceeded) at every poll index: reported statuses stay truthful unless the run ends with the context's error, nil only at real quiescence, an announced execution runs its actions. Second family (overlapping runs on ONE engine value): for every outer program with a probe in an action or a condition x inner program x MaxCycle x probe invocation index j, the j-th probe invocation of the outer run starts a complete inner run (own instance, facts and data context) on the same (warm: it served a complete run before) *GruleEngine, under the first and last static rule order of either run; both traces are judged by the same engine model and compared with the scenario run on two separate engine values."
+}
+
+// c06Interrupted: the same rule sets under a context that ends (cancelled / deadline passed) at EVERY poll index of
+// the run. What the listeners are told stays truthful: a rule reported as non-candidate although its condition
+// holds is acceptable only in a run that ends with the context's error; nil is returned only at real quiescence
+// (or after Complete); an announced execution really runs the rule's actions unless the run ends with an error.
+func c06Interrupted(rep *ev.Reporter, sets map[string]func() []*grl.Rule) {
+	var names []string
+	for k := range sets {
+		names = append(names, k)
+	}
+	sort.Strings(names)
+	var nRuns, nt int64
+	ParallelEach(len(names), func(ni int) {
+		name := names[ni]
+		b, err := hx.Build(hx.NewProgram(sets[name](), grl.Style{}))
+		if err != nil {
+			return
+		}
+		for ord := 0; ord < hx.NPerms(len(b.Prog.Rules)); ord++ {
+			pc0 := hx.NewPollCtx(0, nil)
+			hx.Run(b, c06World(), hx.RunOpts{MaxCycle: 4, DefaultChoice: ord, Ctx: pc0})
+			for ci, cause := range []error{context.Canceled, context.DeadlineExceeded} {
+				for p := 1; p <= pc0.Polls; p++ {
+					caseID := fmt.Sprintf("c06/interrupted/%s/o%d/%s@%d", name, ord, []string{"canceled", "deadline"}[ci], p)
+					if rep.ReplayFilter != "" && rep.ReplayFilter != caseID {
+						continue
+					}
+					once := func() (string, string, *hx.Trace) {
+						pc := hx.NewPollCtx(p, cause)
+						if ci == 1 {
+							pc.DeadlineAt = time.Now().Add(-time.Hour)
+						}
+						tr := hx.Run(b, c06World(), hx.RunOpts{MaxCycle: 4, DefaultChoice: ord, Ctx: pc})
+						atomic.AddInt64(&nRuns, 1)
+						if tr.Panic != nil {
+							return "C06:panic", fmt.Sprint(tr.Panic), tr
+						}
+						for _, pv := range tr.Protocol {
+							return "C06:listener-protocol:" + strings.SplitN(pv, "(", 2)[0] + ":interrupted-run", pv, tr
+						}
+						ctxErr := tr.Err != nil && (errors.Is(tr.Err, cause) || strings.Contains(tr.Err.Error(), cause.Error()))
+						for _, cy := range tr.Cycles {
+							for _, e := range cy.Evals {
+								if rr := cy.RefAt[e.Rule]; rr.Err == nil && rr.True && !e.Cand && !ctxErr {
+									return "C06:satisfied-rule-reported-as-non-candidate-in-an-interrupted-run", fmt.Sprintf("cycle %d: %s is satisfied on the current facts, was reported as NOT a candidate (the context ended at poll %d), and Execute returned %v instead of the context's error", cy.N, e.Rule, p, tr.Err), tr
+								}
+							}
+							if cy.Exec != "" && tr.Err == nil && cy.PostChecked && !cy.PostOK && cy.ModelErr == nil {
+								return "C06:announced-execution-did-not-run-the-actions", fmt.Sprintf("cycle %d: ExecuteRuleEntry(%s) was announced and Execute returned nil, but the facts are not those the rule's actions leave:\n%s", cy.N, cy.Exec, cy.PostDiff), tr
+							}
+						}
+						if tr.Err == nil && !tr.Completed && len(tr.FinalCands) > 0 {
+							return "C06:nil-return-before-quiescence-in-an-interrupted-run", fmt.Sprintf("the context ended at poll %d; Execute returned nil although %v are satisfied on the final facts and Complete was not called", p, tr.FinalCands), tr
+						}
+						return "", "", tr
+					}
+					sig, what, tr := once()
+					atomic.AddInt64(&nt, 1)
+					if sig != "" {
+						if s2, _, _ := once(); s2 != sig {
+							fmt.Printf("HARNESS-NONDETERMINISM property=C06 case=%s\n", caseID)
+							continue
+						}
+						rep.Violation(sig, what+"\n  case: "+caseID+"\n  grl: "+b.Prog.Text+"\n  events: "+strings.Join(tr.Events, " "), map[string]interface{}{"case": caseID, "grl": b.Prog.Text, "flip_at_poll": p, "events": tr.Events})
+					}
+				}
+			}
+		}
+	})
+	rep.Coverage["interrupted_runs"] = nRuns
+	if v, ok := rep.Coverage["evaluations"].(int64); ok {
+		rep.Coverage["evaluations"] = v + nRuns
+	}
+	if v, ok := rep.Coverage["distinct_nontrivial"].(int64); ok {
+		rep.Coverage["distinct_nontrivial"] = v + nt
+	}
 }
 
 // c06Nested: overlapping runs on one engine value, every nesting point enumerated.
